@@ -780,7 +780,9 @@ func pluginExtra(t *tr) string {
 			return true
 		})
 		if sw == nil {
-			t.fail(fd, "pluginConstructor.NewFactory: no switch on factoryType.NumOut()")
+			// round 6: the text reading is informative only (the semantic one is `confErrTable`, area_plugin_r6.go): a
+			// rewrite without a switch is not a failed reading
+			b.WriteString("def confErrSwitch : List (String × String) := []\n\n")
 		} else {
 			var rows []string
 			for _, c := range sw.Body.List {
